@@ -226,6 +226,15 @@ class GpoOracle(Oracle):
                 raise Violation("C09.score", "score of phase %d is %r after its %d validation rewards of mean %r (scores kept: %d) (round %d)"
                                 % (i, V[i - 1] if len(V) >= i else None, len(rew), want, len(V), t), round=t)
             ctx.extra["stats"].bump("phases_completed")
+            if i == self.N:
+                # all phases are over from this moment on (before any further pull): get_last_point must already answer with
+                # a validated point of maximal score
+                g = _pt(L_call("get_last_point", ctx.algo.get_last_point))
+                okg, best = self._best(g)
+                if not okg:
+                    raise Violation("C09.final", "right after the last phase get_last_point returned %r, not a validated point of maximal score %r (round %d)"
+                                    % (g, best, t), round=t)
+                ctx.extra["stats"].bump("recommendations_right_after_last_phase")
 
 
 def L_call(what, fn):
